@@ -1,6 +1,6 @@
 /-
-Helper lemmas for `C04_nth`: `has_index` on `Int32` expressed over mathematical integers, where the
-only place 32-bit arithmetic shows is the *wrapped* difference `(i - b) bmod 2^32`.
+Helper lemmas for `C04_nth`: `has_index` (i32 fields, i64 arithmetic) expressed over mathematical
+integers; the widening makes `index - offset` exact.
 -/
 import LolHtml.Model.Nth
 import LolHtml.Spec.Nth
@@ -8,7 +8,7 @@ import LolHtml.Spec.Nth
 namespace LolHtml.Lemmas.Nth
 open LolHtml.Model.Nth
 
-/-- The decision `has_index` takes, on integers: `o` is the (already wrapped) `index - offset`. -/
+/-- The decision `has_index` takes, on integers: `o` is `index - offset`. -/
 def intHasIndex (a o : Int) : Bool :=
   if a = 0 then decide (o = 0)
   else if (o < 0 ∧ a > 0) ∨ (o > 0 ∧ a < 0) then false
@@ -50,50 +50,69 @@ theorem intHasIndex_iff (a o : Int) : intHasIndex a o = true ↔ ∃ n : Nat, a 
         rw [Int.toNat_of_nonneg hk0]; exact hk.symm
       · rintro ⟨n, hn⟩; exact ⟨n, hn.symm⟩
 
-theorem int32_eq_zero_iff (x : Int32) : x = 0 ↔ x.toInt = 0 := by
-  rw [← Int32.toInt_inj]; simp
+theorem int64_eq_zero_iff (x : Int64) : x = 0 ↔ x.toInt = 0 := by
+  rw [← Int64.toInt_inj]; simp
 
-/-- `has_index` never takes the failure branch, and its answer is `intHasIndex` of the step and the
-wrapped difference. -/
+/-- `has_index` never takes a failure branch (no `i64` overflow, no zero divisor, no `MIN % -1`),
+and its answer is `intHasIndex` of the step and the *exact* difference `index − offset`. -/
 theorem hasIndex_eq (a b i : Int32) :
-    hasIndex ⟨a, b⟩ i = some (intHasIndex a.toInt ((i.toInt - b.toInt).bmod (2 ^ 32))) := by
-  unfold hasIndex intHasIndex wrappingRem wrappingSub
+    hasIndex ⟨a, b⟩ i = some (intHasIndex a.toInt (i.toInt - b.toInt)) := by
+  have hi1 := i.toInt_lt
+  have hi2 := i.le_toInt
+  have hb1 := b.toInt_lt
+  have hb2 := b.le_toInt
+  unfold hasIndex checkedSub64
+  simp only [Int32.toInt_toInt64]
+  have hfit : -(2 ^ 63) ≤ i.toInt - b.toInt ∧ i.toInt - b.toInt < 2 ^ 63 := by omega
+  rw [if_pos hfit]
   simp only []
-  rw [← Int32.toInt_sub]
-  generalize i - b = o
-  by_cases ha : a = 0
-  · have ha' : a.toInt = 0 := (int32_eq_zero_iff a).1 ha
-    rw [if_pos ha, if_pos ha']
+  have ho : (i.toInt64 - b.toInt64).toInt = i.toInt - b.toInt := by
+    rw [Int64.toInt_sub, Int32.toInt_toInt64, Int32.toInt_toInt64,
+      Int.bmod_eq_of_le (by omega) (by omega)]
+  have ha : a.toInt64.toInt = a.toInt := Int32.toInt_toInt64 a
+  rw [← ho, ← ha]
+  have hobound : -(2 ^ 33) ≤ (i.toInt64 - b.toInt64).toInt := by rw [ho]; omega
+  generalize i.toInt64 - b.toInt64 = o at hobound
+  generalize a.toInt64 = s
+  unfold intHasIndex checkedRem64
+  by_cases hs : s = 0
+  · have hs' : s.toInt = 0 := (int64_eq_zero_iff s).1 hs
+    rw [if_pos hs, if_pos hs']
     congr 1
-    by_cases ho : o = 0
-    · simp [ho]
-    · have : ¬ o.toInt = 0 := fun h => ho ((int32_eq_zero_iff o).2 h)
-      simp [ho, this]
-  · have ha' : ¬ a.toInt = 0 := fun h => ha ((int32_eq_zero_iff a).2 h)
-    rw [if_neg ha, if_neg ha']
-    have h1 : (o < 0) ↔ o.toInt < 0 := by rw [Int32.lt_iff_toInt_lt]; simp
-    have h2 : (a > 0) ↔ a.toInt > 0 := by
-      show (0 < a) ↔ _; rw [Int32.lt_iff_toInt_lt]; simp
+    by_cases ho0 : o = 0
+    · simp [ho0]
+    · have : ¬ o.toInt = 0 := fun h => ho0 ((int64_eq_zero_iff o).2 h)
+      simp [ho0, this]
+  · have hs' : ¬ s.toInt = 0 := fun h => hs ((int64_eq_zero_iff s).2 h)
+    rw [if_neg hs, if_neg hs']
+    have h1 : (o < 0) ↔ o.toInt < 0 := by rw [Int64.lt_iff_toInt_lt]; simp
+    have h2 : (s > 0) ↔ s.toInt > 0 := by
+      show (0 < s) ↔ _; rw [Int64.lt_iff_toInt_lt]; simp
     have h3 : (o > 0) ↔ o.toInt > 0 := by
-      show (0 < o) ↔ _; rw [Int32.lt_iff_toInt_lt]; simp
-    have h4 : (a < 0) ↔ a.toInt < 0 := by rw [Int32.lt_iff_toInt_lt]; simp
-    by_cases hs : (o.toInt < 0 ∧ a.toInt > 0) ∨ (o.toInt > 0 ∧ a.toInt < 0)
-    · rw [if_pos hs]
-      have : ((decide (o < 0) && decide (a > 0)) || (decide (o > 0) && decide (a < 0))) = true := by
-        simp only [Bool.or_eq_true, Bool.and_eq_true, decide_eq_true_eq, h1, h2, h3, h4]; exact hs
+      show (0 < o) ↔ _; rw [Int64.lt_iff_toInt_lt]; simp
+    have h4 : (s < 0) ↔ s.toInt < 0 := by rw [Int64.lt_iff_toInt_lt]; simp
+    by_cases hsg : (o.toInt < 0 ∧ s.toInt > 0) ∨ (o.toInt > 0 ∧ s.toInt < 0)
+    · rw [if_pos hsg]
+      have : ((decide (o < 0) && decide (s > 0)) || (decide (o > 0) && decide (s < 0))) = true := by
+        simp only [Bool.or_eq_true, Bool.and_eq_true, decide_eq_true_eq, h1, h2, h3, h4]; exact hsg
       rw [if_pos this]
-    · rw [if_neg hs]
-      have : ¬ ((decide (o < 0) && decide (a > 0)) || (decide (o > 0) && decide (a < 0))) = true := by
-        simp only [Bool.or_eq_true, Bool.and_eq_true, decide_eq_true_eq, h1, h2, h3, h4]; exact hs
-      rw [if_neg this, if_neg ha]
+    · rw [if_neg hsg]
+      have : ¬ ((decide (o < 0) && decide (s > 0)) || (decide (o > 0) && decide (s < 0))) = true := by
+        simp only [Bool.or_eq_true, Bool.and_eq_true, decide_eq_true_eq, h1, h2, h3, h4]; exact hsg
+      rw [if_neg this, if_neg hs]
+      have hmin : ¬ (o = Int64.minValue ∧ s = -1) := by
+        rintro ⟨h, _⟩
+        have : o.toInt = -(2 ^ 63) := by rw [h]; decide
+        omega
+      rw [if_neg hmin]
       simp only []
       congr 1
-      by_cases hr : o % a = 0
-      · have : (o % a).toInt = 0 := (int32_eq_zero_iff _).1 hr
-        rw [Int32.toInt_mod] at this
+      by_cases hr : o % s = 0
+      · have : (o % s).toInt = 0 := (int64_eq_zero_iff _).1 hr
+        rw [Int64.toInt_mod] at this
         simp [hr, this]
-      · have : ¬ (o % a).toInt = 0 := fun h => hr ((int32_eq_zero_iff _).2 h)
-        rw [Int32.toInt_mod] at this
+      · have : ¬ (o % s).toInt = 0 := fun h => hr ((int64_eq_zero_iff _).2 h)
+        rw [Int64.toInt_mod] at this
         simp [hr, this]
 
 end LolHtml.Lemmas.Nth
